@@ -559,7 +559,13 @@ class CallMixin:
             return self.ev1(st, self.parse_spec(body), cx.with_spec(sp2))
         if fn == "old":
             cx2 = cx.with_spec(Spec(sp.old, sp.oldnames, sp.oldnames, sp.exc, sp.mode))
-            return self.ev1(sp.old, e.args[0], cx2)
+            o2 = sp.old.clone()
+            n0 = len(o2.pc)
+            res = self.ev1(o2, e.args[0], cx2)
+            for a in o2.pc[n0:]:      # instances of state-independent facts (typing, heap closure, dict well-formedness)
+                st.assume(a)
+            st.terms = st.terms + o2.terms[len(sp.old.terms):]
+            return res
         if fn == "implies":
             return o.bool_(z3.Implies(T(0), T(1)))
         if fn == "iff":
@@ -648,7 +654,11 @@ class CallMixin:
         if fn == "has":               # has(d, k)
             return o.bool_(o.dict_has(st, o.r(A(0)), A(1).e))
         if fn == "get":               # get(d, k) value stored under k (unspecified if absent)
-            return SV(o.dict_get(st, o.r(A(0)), A(1).e))
+            d, k = o.r(A(0)), A(1).e
+            val = o.dict_get(st, d, k)
+            # heap closure: whatever a container holds is an allocated object
+            st.assume(z3.Implies(z3.And(z3.Select(st.rd("$dom", d), k), V.is_ref(val)), z3.And(V.r(val) > 0, V.r(val) <= st.alloc)))
+            return SV(val)
         if fn == "pos":               # insertion position of key k in dict d
             d = o.r(A(0))
             k = A(1).e
